@@ -191,6 +191,15 @@ Definition cpp_size_case (t : ty) (v : value) (obs : Z) : list Z :=
   else if negb (obs =? cpp_size t v) then [90; cpp_size t v]
   else [].
 
+(* C07: the verdict of the compiled generated decoder on an arbitrary byte string must be the verdict of the
+   decoder model (tie of the C07 theorems); the model never yields CCrash (that is the theorem) *)
+Definition cpp_dec_case (e : endian) (t : ty) (data : bytes) (obs_ok : bool) : list Z :=
+  match cpp_decode e t data with
+  | CTrue _ => if obs_ok then [] else [97; 1]
+  | CFalse => if obs_ok then [97; 0] else []
+  | CCrash => [98]
+  end.
+
 (* C03: obs = bytes the compiled generated encoder produced for the object decoded from the canonical
    bytes of v; they must be the canonical bytes (the property) and what the generator/run-time model
    cpp_encode yields (tie of the C03 theorem) *)
